@@ -20,6 +20,9 @@ type rconfig struct {
 	Writes int    `json:"concurrent_writes"`
 	Third  string `json:"third_thread"` // "", "unbind", "close", "nack2", "compound" (no third thread: the reader reads two compounds of two NACK packets)
 	Bound  int    `json:"deviation_bound"`
+	// Gap is the number of sequence numbers the concurrent writer skips after the two packets sent before the race:
+	// the skipped numbers' slots (those of the packets being retransmitted) are invalidated by the jump, then overwritten
+	Gap int `json:"gap,omitempty"`
 }
 
 func (c rconfig) name() string { b, _ := json.Marshal(c); return string(b) }
@@ -70,12 +73,20 @@ func rbody(c rconfig, ctx *hk.Ctx) {
 	}
 	sentAll := map[int64]bool{v0: true, v0 + 1: true}
 	for k := 0; k < c.Writes; k++ {
-		sentAll[v0+2+int64(k)] = true
+		sentAll[v0+2+int64(c.Gap)+int64(k)] = true
 	}
-	reqs := []uint16{uint16(v0), uint16(v0 + 1), uint16(v0 + 7)} // v0+7 is never sent
+	never := v0 + 7 // never sent
+	if c.Gap > 0 {
+		never = v0 + 2 // the first number the writer skips
+	}
+	if sentAll[never] {
+		ctx.Fail("C04:setup", "harness: %d is sent in this scenario", never)
+		return
+	}
+	reqs := []uint16{uint16(v0), uint16(v0 + 1), uint16(never)}
 	writer := vsched.GoApp("writer", func() {
 		for k := 0; k < c.Writes; k++ {
-			h, p := original(v0 + 2 + int64(k))
+			h, p := original(v0 + 2 + int64(c.Gap) + int64(k))
 			if _, err := s.w.Write(&h, p, nil); err != nil {
 				ctx.Fail("C04:write-error", "%v", err)
 			}
@@ -141,7 +152,11 @@ func rbody(c rconfig, ctx *hk.Ctx) {
 		return
 	}
 	for i, g := range sink.app {
-		h, p := original(v0 + int64(i))
+		v := v0 + int64(i)
+		if i >= 2 {
+			v += int64(c.Gap)
+		}
+		h, p := original(v)
 		if !hdrEq(&g.Header, &h) || !bytes.Equal(g.Payload, p) {
 			ctx.Fail("C04:passthrough", "application packet %d altered or reordered on its way to the transport", i)
 			return
@@ -187,7 +202,7 @@ func rbody(c rconfig, ctx *hk.Ctx) {
 	}
 	// a request for a packet that stays inside the window for the whole run must be answered
 	if c.Third == "" || c.Third == "nack2" || c.Third == "compound" {
-		if int64(c.Size) >= int64(c.Writes)+2 {
+		if int64(c.Size) >= int64(c.Writes)+2+int64(c.Gap) {
 			for q, n := range allowed {
 				if count[q] != n {
 					ctx.Fail("C04:missing-retransmission", "packet %d stayed inside the window (size %d) for the whole run but was retransmitted %d times for %d request(s)", q, c.Size, count[q], n)
@@ -226,6 +241,12 @@ func rconfigs(tier string) []rconfig {
 			}
 		}
 	}
+	// a jump in the writer's sequence numbers across the slot of a packet whose retransmission is under way, then
+	// consecutive packets round the ring onto that slot (a slot released twice recycles the copy being retransmitted)
+	for _, rtx := range []bool{false, true} {
+		out = append(out, rconfig{Size: 2, RTX: rtx, Writes: 3, Third: "", Bound: b, Gap: 1})
+	}
+	out = append(out, rconfig{Size: 4, RTX: false, Writes: 3, Third: "unbind", Bound: b, Gap: 4})
 	if tier == "thorough" {
 		out = append(out, rconfig{Size: 2, RTX: true, Writes: 3, Third: "", Bound: 4})
 		out = append(out, rconfig{Size: 1, RTX: false, Writes: 3, Third: "close", Bound: 4})
@@ -236,7 +257,7 @@ func rconfigs(tier string) []rconfig {
 func init() {
 	hk.Register(&hk.Check{
 		ID: "C04R",
-		Rule: "E1 schedule exploration (-race): a writer sending 2-3 packets into a ring of size 1, 2 or 4 (every send evicts) || an RTCP reader processing a NACK for the slots being evicted and a never-sent number (asynchronous resend goroutine) || optionally UnbindLocalStream, Close or a second NACK reader; " +
+		Rule: "E1 schedule exploration (-race): a writer sending 2-3 packets (consecutive, or after a jump of 1-4 sequence numbers across the slots being retransmitted) into a ring of size 1, 2 or 4 (every send evicts) || an RTCP reader processing a NACK for the slots being evicted and a never-sent number (asynchronous resend goroutine) || optionally UnbindLocalStream, Close or a second NACK reader; " +
 			"sync.Pool modelled as LIFO so a released buffer is recycled by the very next send; every schedule is non-trivial; outcomes = retransmission counts per requested number",
 		Assumptions: []string{"vsched model and race annotations (litmus suite)", "retransmissions are recognised as packets written by goroutines the interceptor started"},
 		Jobs: func(tier string) []string {
